@@ -113,9 +113,74 @@ let run_produce () =
     done
   with End_of_file -> ())
 
+(* ------------------------------------------------------------------------------------------------ store *)
+let opt_of_field f = if f = "nil" then None else Some (bytes_of_field f)
+let field_of_opt = function None -> "nil" | Some b -> field_of_bytes b
+let cap = boltIterCap
+
+let mem_dump (t : mtree) : string =
+  let item (q, i) =
+    Printf.sprintf "%s!%s!%s!%d!%d" (string_of_name q) (field_of_opt i.mw) (dec_of_n i.mv)
+      (int_of_nat (mt_nchildren t q)) (if i.chnil then 1 else 0) in
+  String.concat ";" (List.sort compare (List.map item t))
+let bolt_dump (db : bdb) : string =
+  if db = [] then "~" else String.concat "," (List.map (fun (k, v) -> field_of_bytes k ^ "=" ^ field_of_bytes v) db)
+
+let run_store () =
+  let ms = ref ms_init and bs = ref bs_init and ss = ref ss_init and opno = ref 0 in
+  let step o =
+    let (m', _) = ms_step id_order !ms o in ms := m';
+    let (b', bo) = bs_step cap !bs o in bs := b';
+    ss := sp_step !ss o;
+    (match bo with SMisuse -> diverge "store-misuse" (Printf.sprintf "op %d is API misuse in the model" !opno) | _ -> ()) in
+  (try
+    while true do
+      let line = input_line stdin in
+      incr opno;
+      match String.split_on_char ' ' line with
+      | ["STORE"] -> incr ncases; ms := ms_init; bs := bs_init; ss := ss_init; opno := 0
+      | ["PUT"; nm; ver; w] -> step (SPut (name_of_string nm, n_of_dec ver, bytes_of_field w))
+      | ["REMOVE"; nm; p] -> step (SRemove (name_of_string nm, p = "1"))
+      | ["BEGIN"] -> step SBegin
+      | ["COMMIT"] -> step SCommit
+      | ["ROLLBACK"] -> step SRollback
+      | ["GET"; nm; p; rm; rb] ->
+          let name = name_of_string nm and pfx = (p = "1") in
+          let im = opt_of_field rm and ib = opt_of_field rb in
+          (* correspondence *)
+          let adm = mt_get_admissible !ms.ms_root name pfx in
+          if not (List.mem im adm) then
+            diverge "store-mem-get" (Printf.sprintf "op %d GET %s %s impl=%s model-admissible=[%s]" !opno nm p rm
+              (String.concat "," (List.map field_of_opt adm)));
+          let mb = b_get cap !bs.bs_db name pfx in
+          if mb <> ib then
+            diverge "store-bolt-get" (Printf.sprintf "op %d GET %s %s impl=%s model=%s" !opno nm p rb (field_of_opt mb));
+          (* oracle: the specification on the implementation's answers *)
+          let e = !ss.ss_e in
+          let scan = int_of_nat (spec_scan_len e name) in
+          if not (spec_get_ok e name pfx im) then
+            oracle (Printf.sprintf "store:mem:%s" (if pfx then "prefix-not-newest" else "exact-wrong"))
+              (Printf.sprintf "op %d GET %s %s returned %s" !opno nm p rm);
+          if not (spec_get_ok e name pfx ib) then
+            oracle (Printf.sprintf "store:bolt:%s%s" (if pfx then "prefix-not-newest" else "exact-wrong")
+                      (if pfx && scan >= int_of_n cap - 1 then ":scan>=cap" else ""))
+              (Printf.sprintf "op %d GET %s %s returned %s (names under the prefix: %d)" !opno nm p rb scan)
+      | ["DUMP"; dm; db] ->
+          let mm = mem_dump !ms.ms_root in
+          if mm <> dm then diverge "store-mem-dump" (Printf.sprintf "op %d model=%s impl=%s" !opno (short mm) (short dm));
+          let mb = bolt_dump !bs.bs_db in
+          if mb <> db then diverge "store-bolt-dump" (Printf.sprintf "op %d model=%s impl=%s" !opno (short mb) (short db))
+      | ["END"] -> ()
+      | "BAD" :: _ -> diverge "store-bad" (short line)
+      | [""] | [] -> ()
+      | _ -> print_endline ("BADLINE " ^ short line)
+    done
+  with End_of_file -> ())
+
 let () =
   let mode = if Array.length Sys.argv > 1 then Sys.argv.(1) else "produce" in
   (match mode with
    | "produce" -> run_produce ()
+   | "store" -> run_store ()
    | _ -> print_endline ("BADLINE unknown mode " ^ mode));
   Printf.printf "DONE %d\n" !ncases
